@@ -1435,7 +1435,9 @@ def deep_pool_histories(rng, tier):
             top = side - 10 ** 19
             h.do(("provide", p, USER0, funds_for([(a0, top), (a1, top)]), a0, top, a1, top, None, None))
             h.do(("provide", p, USER0, funds_for([(a0, 10 ** 19), (a1, 10 ** 19)]), a0, 10 ** 19, a1, 10 ** 19, None, None))   # over the bound
-            for k, amt in enumerate((10 ** 18, 10 ** 20, 10 ** 21, 3 * 10 ** 21 + 7, 10 ** 24)):
+            # (the last two: offers about as large as the reserve, where ask_reserve * offer passes 2^196 and approaches
+            # 2^256/10^18 - C06-agent18: a quote-only code path that multiplies by a truncated price there)
+            for k, amt in enumerate((10 ** 18, 10 ** 20, 10 ** 21, 3 * 10 ** 21 + 7, 10 ** 24, 3 * 10 ** 29 + 12345, 31 * 10 ** 28 + 1)):
                 offer = (a0, a1)[k % 2]
                 u = USER0 + 1
                 quote = h.query("sim %d %s %d" % (p, a_line(offer), amt))
